@@ -269,22 +269,43 @@ def run(ctx):
     ctx.floor(R7, 3)
 
     # R8: state installation and copies
+    def classify(f, rhs):
+        if f.params and f.ref_of(rhs) == f.params[0]['ref']:
+            return 'p'
+        if f.const_value(rhs) is not None and not [r for r in f.subtree_refs(rhs) if r.startswith('e:')]:
+            return f.const_value(rhs)
+        en = [r.rsplit('::', 1)[-1] for r in f.subtree_refs(rhs) if r.startswith('e:')]
+        return en[0] if len(en) == 1 else None
+
+    def effects(f, depth=0):
+        """field -> value class ('p' = the single parameter, an int constant, an enumerator name) set on every path, directly or through
+        setters of the class called on this; a field written twice keeps the later write"""
+        eff = {}
+        events = []
+        for fld in ('buffer_', 'ptr_', 'mode_'):
+            for w in q.field_writes(f, 'archive::' + fld):
+                if q.always_before_exit(f, [w]):
+                    events.append((f.point_of(w), fld, classify(f, f.N(w)['ch'][-1])))
+        if depth < 2:
+            for c in f.calls():
+                g = P.fns.get(f.N(c).get('callee') or '')
+                o = f.obj(c) if f.N(c)['k'] == 'CXXMemberCallExpr' else None
+                if g is None or g is f or g.brecord != AR or g.entry is None or o is None or f.N(f.strip(o))['k'] != 'CXXThisExpr' or not q.always_before_exit(f, [c]):
+                    continue
+                for fld, v in effects(g, depth + 1).items():
+                    if v == 'p':
+                        v = classify(f, f.args(c)[0]) if f.args(c) else None
+                    events.append((f.point_of(c), fld, v))
+        for (pt, fld, v) in sorted(events, key=lambda e_: (e_[0] is None, e_[0])):
+            eff[fld] = v
+        return eff
     for nm_, want in (('str', {'buffer_': 'p', 'ptr_': 0, 'mode_': 'load_from_archive'}), ('mode', {'ptr_': 0, 'mode_': 'p'}), ('reset', {'ptr_': 0})):
         fs_ = [f for f in P.by_bname.get(AR + '::' + nm_, []) if f.entry is not None and ((nm_ == 'reset') or len(f.params) == 1)]
         ctx.check(len(fs_) == 1, R8, '%s:setter-found' % nm_, 'setter not found', AR)
         for f in fs_:
+            eff = effects(f)
             for fld, w_ in sorted(want.items()):
-                ws_ = [w for w in q.field_writes(f, 'archive::' + fld)]
-                okw = len(ws_) == 1 and q.always_before_exit(f, ws_)
-                if okw:
-                    rhs = f.N(ws_[0])['ch'][-1]
-                    if w_ == 'p':
-                        okw = f.ref_of(rhs) == f.params[0]['ref']
-                    elif w_ == 0:
-                        okw = f.const_value(rhs) == 0
-                    else:
-                        okw = any(r.endswith('::' + w_) for r in f.subtree_refs(rhs))
-                ctx.check(okw, R8, '%s:%s' % (nm_, fld), '%s() does not set %s to %s' % (nm_, fld, 'its argument' if w_ == 'p' else w_), f.where)
+                ctx.check(eff.get(fld, 'unset') == w_, R8, '%s:%s' % (nm_, fld), '%s() does not set %s to %s (it is %s)' % (nm_, fld, 'its argument' if w_ == 'p' else w_, eff.get(fld, 'left as it was')), f.where)
     for f in [g for g in P.fns.values() if g.brecord == AR and g.short == 'operator=' and g.entry is not None]:
         oth = f.params[0]['ref']
         mv = '&&' in (f.types[f.params[0]['t']] or '')
